@@ -8,7 +8,7 @@ LEVELS = {
  "C06": "other",
  "C07": "other",
  "C08": "exploration",
- "C09": "exploration",
+ "C09": "other",
  "C10": "other",
  "C11": "exploration",
  "C12": "proof",
@@ -18,7 +18,7 @@ LEVELS = {
  "C16": "proof",
  "C17": "proof",
  "C18": "proof",
- "C19": "exploration",
+ "C19": "other",
  "C20": "exploration"
 }
 EXPLAIN = {}
